@@ -388,10 +388,17 @@ class Classifier:
             so, sg = uncps(orig[1:]), uncps(got[1:])
             if has_lsps(so) and so != sg and lsps_norm(so) == lsps_norm(sg):
                 return "yaml-ls-ps-string"
+        if orig.startswith("s") and got.startswith("#"):
+            # exactly the class Codec.YamlScalar.float_overflow_spelling: a string spelled as a number at or
+            # beyond the f64 rounding threshold, read back as that number
+            res, ns, ov = self.model_ys(uncps(orig[1:]))
+            if ov and res[0] == "N" and Fraction(got[1:]) == res[1]:
+                return "yaml-float-overflow-string"
         return None
 
 
 KNOWN_TEXT = {
+    "yaml-float-overflow-string": "YAML only: a string spelled as a number whose magnitude reaches the f64 rounding threshold (\"1e400\") is written as a plain scalar by the emitter and read back as a Number (the loader reads big plain numbers on purpose)",
     "yaml-ls-ps-string": "YAML only: a string or key containing U+2028/U+2029 comes back with spaces inserted after them (the YAML 1.1 emitter breaks the line there and indents, the YAML 1.2 loader keeps both)",
     "json-duplicate-keys": "a JSON object with a duplicate key is read differently by the two JSON loaders: std.deserialize 'Json (serde) keeps the last value, importing the file (event loader) keeps both definitions and merges them (error for different scalars)",
     "toml-datetime-deserialize": "std.deserialize 'Toml turns a TOML datetime into the record { \"$__toml_private_datetime\" = \"..\" } (the toml crate's private serde representation) while importing the same file gives the string",
@@ -778,9 +785,11 @@ def check_yaml_scalars(ck, R, rng, quick, strs):
         if ri != ("S:" + cps(s),):
             # direct oracle: the string did not come back
             key = None
-            ck.hist("emitter_contract_breach", "plain non-string spelling" if (st == "plain" and mf.get("ns") == "1") else "other")
-            ck.violation("yaml-string:" + s[:20], "a string does not survive YAML export/import" +
-                         (": the emitter writes it as a plain scalar that the loader reads as a non-string" if st == "plain" else ""),
+            if st == "plain" and mf.get("ov") == "1" and rm[0] == "N":
+                key = "yaml-float-overflow-string"
+            ck.hist("emitter_contract_breach", key or ("plain non-string spelling" if (st == "plain" and mf.get("ns") == "1") else "other"))
+            ck.violation(key or ("yaml-string:" + s[:20]), KNOWN_TEXT.get(key, "a string does not survive YAML export/import" +
+                         (": the emitter writes it as a plain scalar that the loader reads as a non-string" if st == "plain" else "")),
                          {"case": case, "string": s, "impl": x, "model": y,
                           "nickel": "std.deserialize 'Yaml (std.serialize 'Yaml %s)" % json.dumps(s)})
 
